@@ -128,9 +128,9 @@ def identities(ctx, K, Sa, Sy, x, xa, ey, tag="", A_buf=None):
     cN, cM = np.linalg.cond(N), np.linalg.cond(M)
     tol = 1e-13 * cSy * (cSa + cSy + cN + cM)
     if not np.isfinite(tol) or tol > 1e-4:
-        ctx.label("ill-conditioned" + tag)
+        ctx.label("ill-conditioned" + ("@history" if tag.startswith("@step") else tag))
         return None, None
-    ctx.label("compared" + tag)
+    ctx.label("compared" + ("@history" if tag.startswith("@step") else tag))
     S_n = np.linalg.solve(N, eye)
     G_n = np.linalg.solve(N, SyiK.T)
     MiK = np.linalg.solve(M, K)                 # M^-1 K
@@ -139,9 +139,19 @@ def identities(ctx, K, Sa, Sy, x, xa, ey, tag="", A_buf=None):
     A_m = G_m @ K
 
     # --- typhon -------------------------------------------------------------
+    def unchanged(after):
+        for name, now, before in zip(("K", "S_a", "S_y", "x", "x_a", "e_y"),
+                                     (K, Sa, Sy, x, xa, ey), saved):
+            ctx.check(np.array_equal(now, before), "inputs-modified", lambda: (
+                "%s was changed by %s%s: before %r, after %r" % (
+                    name, after, tag, before, now)))
+
     S = oem.error_covariance_matrix(K, Sa, Sy)
+    unchanged("error_covariance_matrix")
     G = oem.retrieval_gain_matrix(K, Sa, Sy)
+    unchanged("retrieval_gain_matrix")
     A = oem.averaging_kernel_matrix(K, Sa, Sy)
+    unchanged("averaging_kernel_matrix")
     ctx.check(np.shape(S) == (n, n) and np.shape(G) == (n, m)
               and np.shape(A) == (n, n), "shape", lambda: (
                   "n=%d m=%d: S %r, G %r, A %r" % (
@@ -207,11 +217,7 @@ def identities(ctx, K, Sa, Sy, x, xa, ey, tag="", A_buf=None):
         tol + 1e-13) * np.linalg.norm(G_m, 2) * fro(ey) + 1e-300,
         "retrieval_noise", lambda: "got %r expected %r; %s" % (
             rn, ref, info()))
-    for name, now, before in zip(("K", "S_a", "S_y", "x", "x_a", "e_y"),
-                                 (K, Sa, Sy, x, xa, ey), saved):
-        ctx.check(np.array_equal(now, before), "inputs-modified", lambda: (
-            "%s was changed by the calls%s: before %r, after %r" % (
-                name, tag, before, now)))
+    unchanged("smoothing_error / retrieval_noise")
     return tol, np.asarray(A)
 
 
